@@ -253,7 +253,9 @@ func (cw *c01World) opts(s c01Send, p Pkt) *packet.Options {
 		} else {
 			buf = types.NewStringBuffer(append([]byte(nil), fr.Data...))
 		}
+		cw.mu.Lock()
 		cw.stats["preencoded"] = true
+		cw.mu.Unlock()
 		return &packet.Options{Compress: true, WsPreEncodedFrame: buf}
 	}
 	return nil
